@@ -1,10 +1,13 @@
 import GwModel.Middleware
+import GwModel.NewOpts
 import GwModel.Gen.Facts
 /-! # C19 — Middlewares run exactly once, in order, on success and on failure -/
 namespace Props.C19
 open Mw Facts
 
-def MwFactsSafe : Prop := Mw.FactsSafe Gen.mw ∧ Gen.requestMwEveryCall = true
+def MwFactsSafe : Prop := Mw.FactsSafe Gen.mw ∧ Gen.requestMwEveryCall = true ∧
+  -- how New takes its options (model Nw): WithMiddlewares adds to the list, every other option writes its own field
+  Gen.newOpts.middlewaresAdd = true
 
 instance : Decidable MwFactsSafe := by unfold MwFactsSafe; exact inferInstance
 
@@ -35,6 +38,30 @@ theorem scrubber_runs_first {D E : Type} (scrub : RMw D E) (user : List (RMw D E
 theorem data_left_is_data_returned {D E : Type} (scrub : RMw D E) (user : List (RMw D E)) (result d : D) (ee : Option E)
     (h : (runLoop (scrub :: user) result).2 = .ok d) : (execute scrub user result ee).2 = (some d, ee) :=
   execute_returns_middleware_data scrub user result d ee h
+
+/-- a failing middleware leaves no data (whatever the executor had reported) -/
+theorem a_failing_middleware_leaves_no_data {D E : Type} (scrub : RMw D E) (user : List (RMw D E)) (result : D)
+    (ee : Option E) (e : E) (h : (runLoop (scrub :: user) result).2 = .error e) :
+    (execute scrub user result ee).2 = (none, some e) := execute_error_no_data scrub user result ee e h
+
+/-- **`New` (model `Nw`, tied by L2.new-options): the middlewares of all `WithMiddlewares` options, in the order
+    given, split into response and request middlewares** — two options amount to one with the lists joined, and
+    options of other kinds in between change nothing -/
+theorem middleware_options_add (pre post : List Nw.Opt) (ms1 ms2 : List Nw.MwRef) :
+    Nw.build (pre ++ .middlewares ms1 :: .middlewares ms2 :: post) = Nw.build (pre ++ .middlewares (ms1 ++ ms2) :: post) :=
+  Nw.middlewares_add pre post ms1 ms2
+
+theorem middlewares_of_all_options_in_order (opts : List Nw.Opt) :
+    (Nw.build opts).response = ((opts.flatMap Nw.mwsOf).filter (·.isResponse)).map (·.id) ∧
+    (Nw.build opts).request = ((opts.flatMap Nw.mwsOf).filter (fun m => !m.isResponse)).map (·.id) := by
+  rw [Nw.build_eq]; exact ⟨rfl, rfl⟩
+
+theorem option_order_across_kinds_is_immaterial (pre post : List Nw.Opt) (a b : Nw.Opt) (h : Nw.kind a ≠ Nw.kind b) :
+    Nw.build (pre ++ a :: b :: post) = Nw.build (pre ++ b :: a :: post) := Nw.build_swap pre post a b h
+
+/-- non-vacuity -/
+example : Nw.build [.middlewares [⟨true, 1⟩, ⟨false, 2⟩], .planner 3, .middlewares [⟨true, 4⟩], .priorities ["B"]] =
+    { planner := 3, toldPriorities := some ["B"], toldFactory := none, response := [1, 4], request := [2] } := by decide
 
 /-- non-vacuity: scrubber 0, then 1 (ok), 2 (fails), 3 (never runs) -/
 example : (execute (D := Nat) (E := String) ⟨0, fun d => .ok (d + 1)⟩
